@@ -289,7 +289,7 @@ func TestC06(t *testing.T) {
 			}
 		}
 		// 6. growth boundaries: a plain run of length L, then an escape, then a tail
-		if e.enumStage("growth", "plain run of L bytes (L in 0..70 and powers of two +-1 up to 4097) + each escape kind + 15 tails of length 0..12 (word-at-a-time scanners: every offset modulo 8 and distance from the end)", true) {
+		if e.enumStage("growth", "plain run of L bytes (L in 0..70 and powers of two +-1 up to 4097) + each escape kind + 15 tails of length 0..12 (word-at-a-time scanners: every offset modulo 8 and distance from the end); L = 2^16, 2^20 (thorough also 2^22, 2^24) +-1 with 3 escape kinds before or after the run", true) {
 			escs := []string{`\n`, `\"`, `\\`, `A`, `é`, `€`, `😀`, `\ud800`, `\udc00x`, "\xff", "é"}
 			var Ls []int
 			for L := 0; L <= 70; L++ {
@@ -298,10 +298,31 @@ func TestC06(t *testing.T) {
 			for _, p2 := range []int{128, 256, 512, 1024, 4096} {
 				Ls = append(Ls, p2-1, p2, p2+1)
 			}
+			nSmall := len(Ls)
+			for _, p2 := range []int{1 << 16, 1 << 20, 1 << 22, 1 << 24}[:e.cfg.Pick(2, 4)] {
+				Ls = append(Ls, p2-1, p2, p2+1)
+			}
 			idx := 0
 		growth:
-			for _, L := range Ls {
-				for _, esc := range escs {
+			for li, L := range Ls {
+				for ei, esc := range escs {
+					if li >= nSmall {
+						// large runs: three escape kinds, the escape after or before the run
+						if ei%4 != 0 {
+							continue
+						}
+						idx++
+						if !e.cfg.Mine(idx) {
+							continue
+						}
+						run1 := bytes.Repeat([]byte("p"), L)
+						after := append(append(append(append([]byte{'"'}, run1...), esc...), "tail"...), '"')
+						before := append(append(append(append([]byte{'"'}, esc...), run1...), `\t`...), '"')
+						if !run("growth.large", after) || !run("growth.large", before) {
+							break growth
+						}
+						continue
+					}
 					tails := []string{"", "t", `\t`, `étail`, "zz", "zzz", "zzzz", "zzzzz", "zzzzzz", "zzzzzzz", "zzzzzzzz", "zzzzzzzzz", "zzzzzzzzzzzz", `zzz\"`, `zzzzzzz\\`}
 					for _, tail := range tails {
 						idx++
